@@ -5,7 +5,7 @@
 EXTENDS MPTRefImpl
 
 K4 == { <<1, 1>>, <<1, 2>>, <<2, 1>>, <<2, 2>> }
-K3 == { <<1>>, <<1, 1>>, <<2, 1>> }
+K3 == { <<1, 1>>, <<1, 1, 2, 1>>, <<2, 1>> }
 V2 == { "aa", "bb" }
 V1 == { "aa" }
 \* The view keeps what the future and the invariants depend on: in ModeLatest the two store layers only matter
@@ -13,7 +13,7 @@ V1 == { "aa" }
 \* stored as inactive records are history.
 MCView == LET v    == View(top, disk)
               kept == M!Retained(GCMode, height, G)
-          IN  <<IF GCMode THEN <<disk, top>> ELSE v, cache, trieC, expanded, latestC, height,
+          IN  <<IF GCMode THEN <<disk, top>> ELSE v, cache, trieC, IF DropShares THEN expanded ELSE FALSE, latestC, height,
                 [h \in kept |-> roots[h]], G, drops,
                 [n \in {m \in DOMAIN v : ~v[m].active} |-> IF n \in DOMAIN deadAt THEN deadAt[n] ELSE -1], panic>>
 =============================================================================
